@@ -202,13 +202,35 @@ ApiOp(ev) ==
 
 OpOps == BinOps \cup ShiftOps \cup {"div_rem", "not"}
 
-Api(ev) ==
+ApiBase(ev) ==
   CASE ev.op \in CtorOps -> ApiCtor(ev)
     [] ev.op \in ObsOps  -> ApiObs(ev)
     [] ev.op \in EditOps -> ApiEdit(ev)
     [] ev.op \in OpOps   -> ApiOp(ev)
 
-VecOps == CtorOps \cup ObsOps \cup EditOps \cup OpOps
+(***************************************************************************)
+(* "rop": the subject used as the RIGHT operand.  A fresh all-ones vector  *)
+(* z, a.n bits longer than the subject and growable, is the left operand   *)
+(* of operation number a.i of the table below with the subject as its      *)
+(* argument; the call returns what that operation returned, or z afterwards *)
+(* for the forms that return nothing.  The subject itself is not changed.  *)
+(***************************************************************************)
+RopTable == << <<"and", "ar">>, <<"or", "ar">>, <<"xor", "rr">>, <<"add", "ar">>, <<"sub", "rr">>, <<"mul", "rr">>,
+               <<"eq", "">>, <<"append", "">>, <<"prepend", "">>, <<"and", "rr">>, <<"ge", "">>, <<"div_rem", "">> >>
+ApiRop(ev) ==
+  LET b  == ev.x.b
+      t  == RopTable[(ev.a.i % Len(RopTable)) + 1]
+      z  == Ones(Len(b) + ev.a.n)
+      e2 == [op |-> t[1], f |-> t[2], dbg |-> ev.dbg,
+             x |-> [k |-> "*", cl |-> "D", c |-> 0, b |-> z],
+             y |-> [k |-> ev.x.k, cl |-> ev.x.cl, c |-> ev.x.c, b |-> b],
+             a |-> [z |-> 0]]
+      r  == ApiBase(e2)
+  IN R(b, IF r.o = OUnit THEN OVec(r.pb) ELSE r.o)
+
+Api(ev) == IF ev.op = "rop" THEN ApiRop(ev) ELSE ApiBase(ev)
+
+VecOps == CtorOps \cup ObsOps \cup EditOps \cup OpOps \cup {"rop"}
 
 (***************************************************************************)
 (* Capacity rules (C18/C19): constraints, never exact values.              *)
